@@ -2,7 +2,7 @@
 clauses of C06/C07): G1 panic inventory, G2 loop shape, G3 allocation provenance."""
 import json
 from .common import *
-import panics, flow
+import panics, flow, slices
 
 LOOP_TABLE = os.path.join(harness.VERIF, 'py', 'tables', 'loop_table.json')
 
@@ -42,6 +42,11 @@ def run_panics(res, prog, fns, rid, floor_sites, floor_fns=None):
         sites, d = panics.analyse(prog, cn, fl, table=table)
         third |= d.third_party
         used |= d.used_table
+        for k in d.used_table:
+            bk = (table.get(k) or {}).get('backing')
+            if bk:
+                bmap = res.extra.setdefault('_backings', {})
+                bmap[bk] = bmap.get(bk, 0) + 1
         for s in sites:
             nsites += 1
             v = s.verdict or 'OPEN'
@@ -50,7 +55,7 @@ def run_panics(res, prog, fns, rid, floor_sites, floor_fns=None):
                 nontrivial.add(s.tkey)
             if s.verdict is None:
                 res.violation(rid, s.key, s.fn, s.line,
-                              'undischarged panic edge %s on %s' % (s.kind, ' ; '.join(show(t) for t in s.trees)[:300]))
+                              ('undischarged panic edge %s on %s' % (s.kind, ' ; '.join(show(t) for t in s.trees)[:300])) + ((' -- ' + s.why[:700]) if s.why.startswith('STALE') else ''))
             elif v in ('D2', 'D3', 'D4', 'T', 'D9') and len([x for x in res.samples if x.get('rule') == rid]) < 12:
                 res.sample({'rule': rid, 'site': s.key[:240], 'where': '%s:%d' % (s.fn.file, s.line), 'discharged_by': v, 'why': s.why[:200]})
     res.rule(rid, nsites, floor=floor_sites, note='panic edges (Assert terminators + calls to panicking APIs) in %d functions; verdicts %s' % (len(fns), verdicts))
@@ -117,10 +122,20 @@ def run_loops(res, prog, fns, rid, floor_l3):
             l3 += 1
             k = flow.loop_key(lp)
             e = table.get(k)
+            if e is not None and e.get('slices') is not None:
+                items = slices.loop_items(f, prog.crate(f.crate), sorted(lp.body))
+                dg, hs = slices.digest(items)
+                if dg not in e['slices']:
+                    new = slices.new_items(items, e.get('slice_items'))
+                    res.violation(rid, k, f, lp.line, 'STALE reviewed loop variant (%s): the loop body changed since review; new items: %s' % (e['variant'][:80], ' ;; '.join(x[:160] for x in new[:4]) or '(items removed)'))
+                    continue
             if e is None:
                 res.violation(rid, k, f, lp.line, 'loop without an iterator-driven exit and without a reviewed variant (%s)' % (lp.why or 'hand-written loop'))
             else:
                 res.sample({'rule': rid, 'loop': k[:200], 'variant': e['variant'][:200]})
+                if e.get('backing'):
+                    bmap = res.extra.setdefault('_backings', {})
+                    bmap[e['backing']] = bmap.get(e['backing'], 0) + 1
     # recursion among the functions in scope
     names = {f.qual: f for f in fns}
     graph = {f.qual: set() for f in fns}
@@ -144,6 +159,9 @@ def run_loops(res, prog, fns, rid, floor_l3):
             res.violation(rid, k, f, f.line, 'recursive call cycle without a reviewed variant')
         else:
             l3 += 1
+            if table[k].get('backing'):
+                bmap = res.extra.setdefault('_backings', {})
+                bmap[table[k]['backing']] = bmap.get(table[k]['backing'], 0) + 1
     res.rule(rid, sum(counts.values()) + len(rec), floor=None, note='natural loops: %s; recursive cycles: %d' % (counts, len(rec)))
     res.rule(rid + '.L3', l3, floor=floor_l3, note='hand-written loops / recursion needing a reviewed variant')
     res.extra.setdefault('loops', {})[rid] = counts
